@@ -48,7 +48,8 @@ func (tp tagPath) Matches(p tagPath) bool {
 		return false
 	}
 	for i, t := range tp {
-		if t != p[i] {
+		// 0 applies to all fields at this level
+		if t != 0 && t != p[i] {
 			return false
 		}
 	}
